@@ -200,13 +200,13 @@ def check(prog, rep, tier):
             if not ok and isinstance(t.slice, ast.Name) and t.slice.id in mf.params:
                 # a parameter: every caller inside the class passes a lower-cased address
                 idx = mf.params.index(t.slice.id) - 1
-                calls = [c for m2 in cls.methods.values() for c in ast.walk(m2.node)
+                calls = [(m2, c) for m2 in cls.methods.values() for c in ast.walk(m2.node)
                          if isinstance(c, ast.Call) and src_of(c.func) == 'self.%s' % mname]
                 args = []
-                for c in calls:
+                for m2, c in calls:
                     a = c.args[idx] if idx < len(c.args) else next(
                         (k.value for k in c.keywords if k.arg == t.slice.id), None)
-                    args.append(src_of(a) if a is not None else None)
+                    args.append(common.unalias(m2.node, a) if a is not None else None)
                 ok = bool(calls) and all(a is not None and a.endswith('.lower()') for a in args)
                 why = 'stored under the parameter %s, callers pass %s' % (t.slice.id, args)
             if ok:
